@@ -40,6 +40,22 @@ def common_helpers(p, ns="gen", ekf=True):
         for c in p.calibration:
             L.append(f"  o.{c} = IN(\"{c}\");")
         L.append("  return G::Calibration(o); }")
+    # warm-up objects (history dimension of the generated functions: an earlier call with OTHER state, control and
+    # calibration values must not influence a later one - e.g. function-local statics)
+    L.append("static G::State mkStateW() { G::StateOptions o;")
+    for i, s in enumerate(p.state):
+        L.append(f"  o.{s} = vsym::in_or(\"{s}__w\", {0.4375 + 0.25 * i});")
+    L.append("  return G::State(o); }")
+    if p.control:
+        L.append("static G::Control mkControlW() { G::ControlOptions o;")
+        for i, c in enumerate(p.control):
+            L.append(f"  o.{c} = vsym::in_or(\"{c}__w\", {-0.3125 + 0.5 * i});")
+        L.append("  return G::Control(o); }")
+    if p.calibration:
+        L.append("static G::Calibration mkCalW() { G::CalibrationOptions o;")
+        for i, c in enumerate(p.calibration):
+            L.append(f"  o.{c} = vsym::in_or(\"{c}__w\", {0.8125 + 0.375 * i});")
+        L.append("  return G::Calibration(o); }")
     if ekf:
         n = len(ss)
         L.append("static G::Covariance mkCov() { G::Covariance c;")
@@ -78,7 +94,17 @@ def ekf_driver(p, ns="gen"):
         L.append("  G::Calibration cal = mkCal();")
     pa = _call_args(p, ["dt", "sv"])
     # --- process model pieces
+    # warm-up: the same functions are first called with other values (results discarded)
+    warm_args = ["dtw", "svw"] + (["calw"] if p.calibration else []) + (["ctlw"] if p.control else [])
+    wa = ", ".join(warm_args)
+    L.append("  G::StateAndVariance svw; svw.state = mkStateW(); svw.covariance = G::Covariance();")
+    L.append("  S dtw = vsym::in_or(\"dt__w\", 0.21875);")
+    if p.control:
+        L.append("  G::Control ctlw = mkControlW();")
+    if p.calibration:
+        L.append("  G::Calibration calw = mkCalW();")
     L.append("  if (sc == \"pm\") {")
+    L.append(f"    {{ auto w0 = G::ExtendedKalmanFilterProcessModel::model({wa}); auto w1 = G::ExtendedKalmanFilterProcessModel::process_jacobian({wa}); auto w2 = G::ExtendedKalmanFilterProcessModel::control_jacobian({wa}); (void)w0; (void)w1; (void)w2; }}")
     L.append(f"    G::State f = G::ExtendedKalmanFilterProcessModel::model({pa}); outState(\"f_\", f);")
     L.append(f"    auto Gm = G::ExtendedKalmanFilterProcessModel::process_jacobian({pa});")
     for i in range(n):
@@ -106,6 +132,8 @@ def ekf_driver(p, ns="gen"):
         ra = _call_args(p, ["sv"], ctl=False) + ", rd"
         L.append(f"  if (sc == \"sm:{key}\") {{")
         L.append(f"    G::{T} rd = mkReading_{key}();")
+        wra = ", ".join(["svw"] + (["calw"] if p.calibration else []) + ["rd"])
+        L.append(f"    {{ auto w0 = G::{T}SensorModel::model({wra}); auto w1 = G::{T}SensorModel::jacobian({wra}); (void)w0; (void)w1; }}")
         L.append(f"    G::{T} h = G::{T}SensorModel::model({ra});")
         for r in rs:
             L.append(f"    vsym::out(\"h_{r}\", h.{r}());")
